@@ -118,8 +118,9 @@ def run(ctx, chk):
                        'by kind, port; path copy copies texts in order, flag, tail; flag reconciliation; lone empty segment); every '
                        'success path whose target may lack an authority and whose path went through dot-segment removal passes through '
                        'the ambiguity guard afterwards, and the guard prepends "." exactly for host-less paths that would begin with '
-                       '"//". NOT decided: that merge and dot-segment removal implement 5.2.3 / 5.2.4 on the segment list (functional '
-                       'correctness of list-rewiring loops).')
+                       '"//"; in dot-segment removal no segment established to be "." / ".." survives outside relative mode, and resolution '
+                       'enters it with the mode constant false. NOT decided: that merge and dot-segment removal implement 5.2.3 / 5.2.4 on '
+                       'the segment list in full (which predecessor ".." takes away, functional correctness of list-rewiring loops).')
     chk.rule('resolution-table', 'every success path of the resolution engine produces scheme / authority / path / query / fragment '
              'from the sources RFC 3986 5.2.2 prescribes for the atom valuation of that path', floor=8)
     chk.rule('relative-base', 'a base without scheme returns URI_ERROR_ADDBASE_REL_BASE on a path that produces nothing', floor=2)
@@ -130,6 +131,11 @@ def run(ctx, chk):
              'contracts on every path', floor=10)
     chk.rule('flag-reconcile', 'when authority and path of the target come from different sources the absolute-path flag is '
              'reconciled with the host before dot-segment removal', floor=2)
+    chk.rule('dot-removal', 'RFC 3986 5.2.4, necessary part: outside relative mode (the mode parameter tested true on the path) every '
+             'segment established to be "." or ".." is freed or turned into the empty placeholder before the walk moves on; resolution '
+             'enters dot removal with the mode parameter constant false', floor=4)
+    from ..dotrules import rule_dot_removal
+    chk.analysed['dot_removal_sites'] = rule_dot_removal(ctx, chk, {'dots-removed': 'dot-removal', 'absolute-entry': 'dot-removal'})
     from .c11 import _compare_range
     chk.rule('compare-range', 'uriCompareRange (which decides "identical scheme" for the compatibility option): NULL equals only NULL, '
              'lengths compared, texts compared over the full length in characters', floor=8)
